@@ -138,6 +138,38 @@ Theorem C19_length_expiry_ch2 : forall (s : apu) (v1 v : N) (m : nat),
 Proof. exact ch2_length_expiry. Qed.
 Print Assumptions C19_length_expiry_ch2.
 
+(* the same for channels 4, 3 (256 length steps) and 1 (sweep unit idle: NR10 period and shift 0) *)
+Theorem C19_length_expiry_ch4 : forall (s : apu) (v1 v : N) (m : nat),
+  clk_wf s -> is_on s = true -> nsDac (ch4 s) = true -> nsLenEn (ch4 s) = false ->
+  trig_bit v = true -> len_bit v = true ->
+  let s0 := apu_bus_write (apu_bus_write s 0xFF20 v1) 0xFF23 v in
+  let L := trigger_length 64 (64 - v1 mod 64) false (odd_seq s) in
+  0 < L /\ en4 s0 = true /\
+  en4 (apu_run s0 (repeat OCycle m)) = (lc_count (phase s) (fseq s) (4 * N.of_nat m) <? L).
+Proof. exact ch4_length_expiry. Qed.
+Print Assumptions C19_length_expiry_ch4.
+
+Theorem C19_length_expiry_ch3 : forall (s : apu) (v1 v : N) (m : nat),
+  v1 < 256 -> clk_wf s -> is_on s = true -> wvDac (ch3 s) = true -> wvLenEn (ch3 s) = false ->
+  trig_bit v = true -> len_bit v = true ->
+  let s0 := apu_bus_write (apu_bus_write s 0xFF1B v1) 0xFF1E v in
+  let L := trigger_length 256 (256 - v1) false (odd_seq s) in
+  0 < L /\ en3 s0 = true /\
+  en3 (apu_run s0 (repeat OCycle m)) = (lc_count (phase s) (fseq s) (4 * N.of_nat m) <? L).
+Proof. exact ch3_length_expiry. Qed.
+Print Assumptions C19_length_expiry_ch3.
+
+Theorem C19_length_expiry_ch1 : forall (s : apu) (v1 v : N) (m : nat),
+  clk_wf s -> is_on s = true -> sqDac (ch1 s) = true -> sqLenEn (ch1 s) = false ->
+  swShift (sw1 s) = 0 -> swPeriod (sw1 s) = 0 ->
+  trig_bit v = true -> len_bit v = true ->
+  let s0 := apu_bus_write (apu_bus_write s 0xFF11 v1) 0xFF14 v in
+  let L := trigger_length 64 (64 - v1 mod 64) false (odd_seq s) in
+  0 < L /\ en1 s0 = true /\
+  en1 (apu_run s0 (repeat OCycle m)) = (lc_count (phase s) (fseq s) (4 * N.of_nat m) <? L).
+Proof. exact ch1_length_expiry. Qed.
+Print Assumptions C19_length_expiry_ch1.
+
 (* 64 - t length clocks in total, counting the extra clock of the first half; the one exception is the
    documented reload: t = 63 in the first half empties the counter and the trigger reloads 63. *)
 Theorem C19_trigger_length_total : forall (t : N) (first_half : bool),
@@ -157,6 +189,20 @@ Theorem C19_trigger_length_ch2 : forall (c : square) (v : N) (first_half : bool)
   sqLenEn c' = true /\ sqLength c' = trigger_length 64 (sqLength c) (sqLenEn c) first_half /\ sqEnabled c' = sqDac c.
 Proof. exact nr24_square_len. Qed.
 Print Assumptions C19_trigger_length_ch2.
+
+Theorem C19_trigger_length_ch4 : forall (n : noise) (v : N) (first_half : bool),
+  trig_bit v = true -> len_bit v = true -> nsLength n < 256 ->
+  let n' := nr44_noise n v first_half in
+  nsLenEn n' = true /\ nsLength n' = trigger_length 64 (nsLength n) (nsLenEn n) first_half /\ nsEnabled n' = nsDac n.
+Proof. exact nr44_noise_len. Qed.
+Print Assumptions C19_trigger_length_ch4.
+
+Theorem C19_trigger_length_ch3 : forall (w : wave) (v : N) (first_half : bool),
+  trig_bit v = true -> len_bit v = true -> wvLength w < 65536 ->
+  let w' := nr34_wave w v first_half in
+  wvLenEn w' = true /\ wvLength w' = trigger_length 256 (wvLength w) (wvLenEn w) first_half /\ wvEnabled w' = wvDac w.
+Proof. exact nr34_wave_len. Qed.
+Print Assumptions C19_trigger_length_ch3.
 
 (* switching power on restarts the frame sequencer *)
 Theorem C19_power_on_restarts_sequencer : forall (s : apu) (v : N),
